@@ -337,12 +337,17 @@ theorem verifyAndApply_total (C : Crypto) (c : Core) (d : Disk) (hT : RootShape 
         | ok r =>
           obtain ⟨j0, bu⟩ := r
           simp only []
-          unfold Core.applyVerified
-          simp only []
-          have hc := commit_notPanic c.tree cs hk
-          cases hcm : c.tree.commit cs with
-          | error e => rw [hcm] at hc; simp only [Core.finishApply]; exact notPanic_cast hc
-          | ok tr => simp only [Core.finishApply]; exact ok_notPanic _
+          by_cases henc : Core.encodable cs = true
+          · rw [if_pos henc]
+            unfold Core.applyVerified
+            simp only []
+            have hc := commit_notPanic c.tree cs hk
+            cases hcm : c.tree.commit cs with
+            | error e => rw [hcm] at hc; simp only [Core.finishApply]; exact notPanic_cast hc
+            | ok tr => simp only [Core.finishApply]; exact ok_notPanic _
+          · rw [if_neg henc]
+            intro hpanic
+            cases hpanic
 
 /-! ### where `RootShape` holds -/
 
